@@ -8,8 +8,9 @@
 (* with nothing else scheduled in any-predecessor mode ("pregel"); every   *)
 (* node is a streaming producer "S" (Pipe + writer goroutine), a stream    *)
 (* transformer "T" (reads its input stream chunk-wise, writes its own      *)
-(* Pipe) or a value node "V"; optionally one stream branch that reads only *)
-(* a prefix of its input.  Every produced value has a consumer: every node *)
+(* Pipe) or a value node "V"; optionally up to MaxBr stream branches on    *)
+(* one node (overlapping end sets: several may select the same target),    *)
+(* each reading only a prefix of its input.  Every produced value has a consumer: every node *)
 (* has a successor, a branch target is fed by the branch only and leads to *)
 (* END.  Secondary dimensions (capacities, chunk counts, output keys,      *)
 (* callback handlers closing / draining their copies, where the caller     *)
@@ -35,7 +36,8 @@
 (***************************************************************************)
 EXTENDS Naturals, Sequences, FiniteSets, TLC, Json
 
-CONSTANTS N, MaxEdges, Mode, AllowBranch
+CONSTANTS N, MaxEdges, Mode, AllowBranch,
+          MaxBr        \* up to MaxBr stream branches, all on ONE node, end sets may overlap (two branches may select the same target)
 Names == <<"a", "b", "c", "d">>
 Nodes == {Names[i] : i \in 1..N}
 START == "start"
@@ -53,10 +55,14 @@ GenInit == phase = "e" /\ edges = {} /\ br = <<>> /\ kinds = <<>>
 MaxRank == IF edges = {} THEN 0 ELSE CHOOSE m \in {ERank(x) : x \in edges} : \A y \in edges : ERank(y) <= m
 AddEdge(e) == /\ phase = "e" /\ Cardinality(edges) < MaxEdges /\ ERank(e) > MaxRank
               /\ edges' = edges \cup {e} /\ UNCHANGED <<phase, br, kinds>>
-AddBranch(b) == /\ phase = "e" /\ AllowBranch /\ br = <<>>
+EndsRank(E) == (IF "a" \in E THEN 1 ELSE 0) + (IF "b" \in E THEN 2 ELSE 0) + (IF "c" \in E THEN 4 ELSE 0) + (IF "d" \in E THEN 8 ELSE 0)
+               + (IF END \in E THEN 16 ELSE 0)
+\* further branches go on the node that already carries one, in non-decreasing order of their end sets (canonical)
+AddBranch(b) == /\ phase \in {"e", "b"} /\ AllowBranch /\ Len(br) < MaxBr
+                /\ (br # <<>> => b.from = br[1].from /\ EndsRank(b.ends) >= EndsRank(br[Len(br)].ends))
                 /\ ~\E e \in edges : e[1] = b.from /\ e[2] \in b.ends
-                /\ br' = <<b>> /\ phase' = "b" /\ UNCHANGED <<edges, kinds>>
-BrEnds == IF br = <<>> THEN {} ELSE br[1].ends
+                /\ br' = Append(br, b) /\ phase' = "b" /\ UNCHANGED <<edges, kinds>>
+BrEnds == UNION {br[i].ends : i \in 1..Len(br)}
 BrFrom == IF br = <<>> THEN "" ELSE br[1].from
 Preds(n) == {e[1] : e \in {x \in edges : x[2] = n}} \cup (IF n \in BrEnds THEN {BrFrom} ELSE {})
 Succs(n) == {e[2] : e \in {x \in edges : x[1] = n}} \cup (IF n = BrFrom THEN BrEnds ELSE {})
